@@ -59,6 +59,7 @@ pub fn run_case(case: &Case) -> RunOutput {
         "C04" => crate::crash::run_crash(case),
         "C12" => crate::conc::run_conc(case),
         "C11" => crate::jrnl::run_jrnl(case),
+        "C20" => crate::sdk::run_sdk(case),
         _ => run_sequential(case),
     }
 }
@@ -177,6 +178,7 @@ fn nontrivial(prop: &str, out: &RunOutput) -> bool {
         "C09" => out.stats.probes.get("ungranted_request_refused").copied().unwrap_or(0) + out.stats.probes.get("granted_request_served").copied().unwrap_or(0) >= 3,
         "C10" => ok("login") + ok("login_pat") >= 1 && out.stats.probes.get("invalid_login_refused").copied().unwrap_or(0) + out.stats.probes.get("invalid_token_refused").copied().unwrap_or(0) >= 1,
         "C13" => n("garbage") >= 1 && (ok("create_topic") + ok("create_stream") + ok("send") + ok("create_user")) >= 4,
+        "C19" => ok("send") >= 2 && out.stats.audits >= 1 && out.stats.probes.get("files_scanned_for_secrets").copied().unwrap_or(0) >= 1,
         "C14" => ok("send") >= 2 && n("job_maintain") >= 1 && n("jump") >= 1,
         "C15" => ok("send") >= 2 && n("send") >= 4,
         "C17" => ok("send") >= 4,
